@@ -8,6 +8,7 @@
 From Coq Require Import List Bool Arith String QArith Reals Lra.
 From PyxelV Require Import Model.Decision Proofs.Decision Proofs.DecisionR.
 From PyxelV Require Import Model.DecisionSrc Proofs.DecisionSrc Proofs.DecisionSrcR.
+From PyxelV Require Import Model.DecisionKinds Proofs.DecisionKinds.
 From PyxelGen Require Import Gen_C10.
 Import ListNotations.
 Local Close Scope Q_scope.
@@ -234,6 +235,92 @@ Theorem C10_builds_idempotent :
 Proof. intros A flog fexp logdom st ops i j lb1 ub1 lb2 ub2. apply builds_agree. vm_compute. reflexivity. Qed.
 Print Assumptions C10_builds_idempotent.
 
+(* ============================================================================ any container of placeholders
+
+   `src_kinds` is what translator/c10.py read on THIS run: the outer container convert_values returns for every class
+   of object handed to ParameterValues(values=...), and - for _set_bound, the count of __init__,
+   convert_to_parameters and update_processor - the if / elif chain on `var.values` as a decision tree over the
+   tests the source makes (== "_", isinstance(var.values, list | tuple | str | np.ndarray | Sequence),
+   all(x == "_" ...)), its leaves labelled scalar / vector / raise / no branch taken.
+
+   The containers: the string "_", a list (what YAML and JSON produce), a tuple, another string ("" / "__" ...),
+   a numpy array of "_" strings, another Sequence (collections.UserList ...), a generator; each with any number of
+   placeholders. *)
+
+(* the check over the finite universe (7 kinds x 0 / 1 / 2 placeholders) *)
+Theorem C10_same_type_tests : kinds_ok src_kinds = true.
+Proof. vm_compute. reflexivity. Qed.
+Print Assumptions C10_same_type_tests.
+
+(* ... means, for EVERY container with ANY number of placeholders that ParameterValues accepts: either _set_bound
+   refuses the object kept by the ParameterValues, or _set_bound and update_processor take the branch the
+   declaration means for it (scalar for "_", vector of n components for n placeholders in a container; a scalar
+   only when there is exactly one placeholder) and convert_to_parameters and the count of __init__ a branch of that
+   width.  The type tests of the four walks are the same predicate on everything that reaches them. *)
+Theorem C10_containers_classified_alike :
+  forall v : pval, pv_accepts v = true ->
+    let w := norm (kd_norm src_kinds) v in
+    classify (kd_sb src_kinds) w = ORaise \/
+    (classify (kd_sb src_kinds) w = spec_outcome v /\ classify (kd_up src_kinds) w = spec_outcome v /\
+     owidth (classify (kd_cv src_kinds) w) (snd v) = owidth (spec_outcome v) (snd v) /\
+     (forall g, kd_init src_kinds = Some g -> owidth (classify g w) (snd v) = owidth (spec_outcome v) (snd v)) /\
+     (spec_outcome v = OScalar -> snd v = 1)).
+Proof.
+  intros v. apply agree_at_meaning. apply kinds_ok_all. vm_compute. reflexivity.
+Qed.
+Print Assumptions C10_containers_classified_alike.
+
+(* what YAML can produce is never refused because of its container *)
+Theorem C10_yaml_containers_accepted :
+  forall (A : Type) (l : list (@dvar A)),
+    canonical (map snd l) = true -> accepted_objects l = true ->
+    views (kd_norm src_kinds) (kd_sb src_kinds) l = Some (map spec_var l).
+Proof. intros A l. apply views_canonical. vm_compute. reflexivity. Qed.
+Print Assumptions C10_yaml_containers_accepted.
+
+(* for every declaration - any list of variables, each in any container - that the constructor accepts: _set_bound
+   and update_processor see the SAME list of variables, the one the declaration means; convert_to_parameters sees
+   variables of the same widths and flags; the walks of the source are the hand-written walks of Model/Decision.v
+   on the declared variables; the number of parameters counted by __init__ (if the source counts) is the total
+   width *)
+Theorem C10_containers_same_variables :
+  forall (A : Type) (flog fexp : A -> A) (logdom : A -> bool) (l : list (@dvar A)) lb ub,
+    k_bounds flog logdom src_kinds src_desc l = Some (lb, ub) ->
+    let vs := map spec_var l in
+    views (kd_norm src_kinds) (kd_sb src_kinds) l = Some vs /\
+    views (kd_norm src_kinds) (kd_up src_kinds) l = Some vs /\
+    (exists cs, views (kd_norm src_kinds) (kd_cv src_kinds) l = Some cs /\ Forall2 same_wl cs vs) /\
+    bounds_walk flog logdom vs = Some (lb, ub) /\
+    (forall x, k_convert fexp src_kinds src_desc l x = Some (convert_walk fexp vs x)) /\
+    (forall p, k_assign src_kinds src_desc l p = assign_walk vs p) /\
+    (kd_init src_kinds = None \/ k_count src_kinds l = Some (total vs)) /\
+    Forall2 (fun dv v => width v = decl_width dv) l vs.
+Proof. intros A flog fexp logdom l lb ub. apply k_walks_are_model; vm_compute; reflexivity. Qed.
+Print Assumptions C10_containers_same_variables.
+
+(* C10_walks_agree for declarations in any containers: variable k, declared with n_k placeholders in whatever
+   container, owns the n_k consecutive components [off_k, off_k + n_k) in the box, in the conversion and in what
+   Processor.set receives *)
+Theorem C10_containers_walks_agree :
+  forall (A : Type) (flog fexp : A -> A) (logdom : A -> bool) (l : list (@dvar A)) lb ub x,
+    k_bounds flog logdom src_kinds src_desc l = Some (lb, ub) -> List.length x = List.length lb ->
+    let vs := map spec_var l in
+    List.length lb = total vs /\ List.length ub = total vs /\
+    exists conv asg,
+      k_convert fexp src_kinds src_desc l x = Some conv /\ List.length conv = total vs /\
+      k_assign src_kinds src_desc l conv = Some asg /\ List.length asg = List.length l /\
+      forall k dv, nth_error l k = Some dv ->
+        let v := spec_var dv in
+        let off := offset vs k in let w := decl_width dv in
+        off + w <= total vs /\
+        offset vs (S k) = off + w /\
+        slice off w lb = var_lower flog v /\
+        slice off w ub = var_upper flog v /\
+        slice off w conv = var_convert fexp v (slice off w x) /\
+        exists val, var_value v (slice off w conv) = Some val /\ nth_error asg k = Some (key v, val).
+Proof. intros A flog fexp logdom l lb ub x. apply k_walks_agree; vm_compute; reflexivity. Qed.
+Print Assumptions C10_containers_walks_agree.
+
 (* ---------------------------------------------------------------------------- non-vacuity *)
 
 (* a logarithmic vector with per-component boundaries BEFORE a linear scalar, then a linear vector with
@@ -353,4 +440,89 @@ Example ex_bare_squeeze_rejected :
     [mkVar "s"%string None true (Shared (Raw 1) (Raw 100))] [Raw 1] = None /\
   g_final_applied s_exp (mkRp true true true true) desc_as_coded
     [mkVar "s"%string None true (Shared (Raw 1) (Raw 100))] [Raw 1] = Some [("s"%string, AScalar (Ten 1))].
+Proof. vm_compute. repeat split; reflexivity. Qed.
+
+(* ---------------------------------------------------------------------------- containers *)
+
+(* a declaration as YAML produces it (a logarithmic list of three placeholders before a linear scalar, then a list of
+   two): accepted by the walks of the source, 6 components, the scalar reads component 3 *)
+Definition ex_dvars : list (@dvar sym) :=
+  [ (mkVar "v"%string None true (Shared (Raw 1) (Raw 100)), (KList, 3));
+    (mkVar "s"%string None false (Shared (Raw 1) (Raw 4)), (KUnd, 1));
+    (mkVar "w"%string None false (Shared (Raw 0) (Raw 1)), (KList, 2)) ].
+
+Example ex_containers_accepted :
+  k_bounds s_log s_dom src_kinds src_desc ex_dvars
+  = Some ([Log 1; Log 1; Log 1; Raw 1; Raw 0; Raw 0], [Log 100; Log 100; Log 100; Raw 4; Raw 1; Raw 1]) /\
+  k_convert s_exp src_kinds src_desc ex_dvars (map Raw [0; 1; 2; 3; (1 # 2); 1]%Q)
+  = Some [Ten 0; Ten 1; Ten 2; Raw 3; Raw (1 # 2); Raw 1] /\
+  k_assign src_kinds src_desc ex_dvars [Ten 0; Ten 1; Ten 2; Raw 3; Raw (1 # 2); Raw 1]
+  = Some [ ("v"%string, AVector [Ten 0; Ten 1; Ten 2]); ("s"%string, AScalar (Raw 3));
+           ("w"%string, AVector [Raw (1 # 2); Raw 1]) ].
+Proof. vm_compute. repeat split; reflexivity. Qed.
+
+(* the same with the vectors handed over in a TUPLE and in the string "__" (the tree as repaired: convert_values
+   turns both into lists), and with np.array(["_"]) - which equals "_" - as a scalar *)
+Example ex_other_containers_accepted :
+  let l := [ (mkVar "v"%string None true (Shared (Raw 1) (Raw 100)), (KTuple, 3));
+             (mkVar "s"%string None false (Shared (Raw 1) (Raw 4)), (KArr, 1));
+             (mkVar "w"%string None false (Shared (Raw 0) (Raw 1)), (KStr, 2)) ] in
+  k_bounds s_log s_dom kinds_as_coded desc_as_coded l
+  = Some ([Log 1; Log 1; Log 1; Raw 1; Raw 0; Raw 0], [Log 100; Log 100; Log 100; Raw 4; Raw 1; Raw 1]) /\
+  k_assign kinds_as_coded desc_as_coded l [Ten 0; Ten 1; Ten 2; Raw 3; Raw (1 # 2); Raw 1]
+  = Some [ ("v"%string, AVector [Ten 0; Ten 1; Ten 2]); ("s"%string, AScalar (Raw 3));
+           ("w"%string, AVector [Raw (1 # 2); Raw 1]) ] /\
+  k_count kinds_as_coded l = Some 6 /\
+  (* a generator and an array of two placeholders never get past ParameterValues *)
+  k_bounds s_log s_dom kinds_as_coded desc_as_coded
+    [ (mkVar "g"%string None false (Shared (Raw 0) (Raw 1)), (KIter, 2)) ] = None /\
+  k_bounds s_log s_dom kinds_as_coded desc_as_coded
+    [ (mkVar "a"%string None false (Shared (Raw 0) (Raw 1)), (KArr, 2)) ] = None.
+Proof. vm_compute. repeat split; reflexivity. Qed.
+
+(* C10-F2 (repaired): _set_bound tested isinstance(var.values, Sequence) where the three other walks test
+   isinstance(var.values, list).  convert_values turns every non-empty container into a list, but an EMPTY one
+   is ParameterType.Simple and is kept as it is: for values=() (or "", UserList()) the box had no component for
+   the variable while convert_to_parameters took one.  Such a description is not accepted, and the model says what
+   happened: a logarithmic () before a linear scalar in [1, 4] - the box is the scalar's alone, and 10 ** lands on
+   the scalar's component *)
+Definition kinds_before_repair : kdesc :=
+  mkKd (kd_norm kinds_as_coded)
+       (GIf TEq (GLeaf OScalar) (GIf (TAnd (TInst [CSeq]) TAllPh) (GLeaf OVector) (GLeaf ORaise)))
+       (kd_init kinds_as_coded) (kd_cv kinds_as_coded) (kd_up kinds_as_coded).
+
+Example ex_sequence_test_rejected :
+  kinds_ok kinds_before_repair = false /\ first_disagreement kinds_before_repair = Some (KTuple, 0) /\
+  let l := [ (mkVar "v"%string None true (Shared (Raw 1) (Raw 100)), (KTuple, 0));
+             (mkVar "s"%string None false (Shared (Raw 1) (Raw 4)), (KUnd, 1)) ] in
+  k_bounds s_log s_dom kinds_before_repair desc_as_coded l = Some ([Raw 1], [Raw 4]) /\
+  k_convert s_exp kinds_before_repair desc_as_coded l [Raw 2] = Some [Ten 2] /\
+  k_count kinds_before_repair l = Some 2 /\
+  k_bounds s_log s_dom kinds_as_coded desc_as_coded l = None.
+Proof. vm_compute. repeat split; reflexivity. Qed.
+
+(* a convert_values that keeps a tuple a tuple: with the Sequence test in _set_bound EVERY tuple of placeholders
+   got a box of n components that the three other walks treated as one scalar; with the same test in the four
+   walks the tuple is refused, and the description is accepted *)
+Definition norm_keeps_tuples : norm_desc := mkNorm true true [(CTuple, KTuple)] KList.
+
+Example ex_kept_tuple :
+  kinds_ok (mkKd norm_keeps_tuples (kd_sb kinds_before_repair) (kd_init kinds_as_coded) (kd_cv kinds_as_coded)
+                 (kd_up kinds_as_coded)) = false /\
+  kinds_ok (mkKd norm_keeps_tuples (kd_sb kinds_as_coded) (kd_init kinds_as_coded) (kd_cv kinds_as_coded)
+                 (kd_up kinds_as_coded)) = true /\
+  (* a convert_to_parameters that takes len("_") = 1 components for "_" through its list branch is the same walk *)
+  kinds_ok (mkKd (kd_norm kinds_as_coded) (kd_sb kinds_as_coded) (kd_init kinds_as_coded)
+                 (GIf (TInst [CList; CStr]) (GLeaf OVector) (GLeaf OScalar)) (kd_up kinds_as_coded)) = true /\
+  (* and four walks that all accept lists and tuples are accepted too *)
+  let t := TInst [CList; CTuple] in
+  kinds_ok (mkKd norm_keeps_tuples (GIf TEq (GLeaf OScalar) (GIf (TAnd t TAllPh) (GLeaf OVector) (GLeaf ORaise)))
+                 (Some (GIf t (GLeaf OVector) (GLeaf OScalar))) (GIf t (GLeaf OVector) (GLeaf OScalar))
+                 (GIf TEq (GLeaf OScalar) (GIf t (GLeaf OVector) (GLeaf OSkip)))) = true.
+Proof. vm_compute. repeat split; reflexivity. Qed.
+
+(* the hypotheses of C10_containers_classified_alike / C10_yaml_containers_accepted are satisfiable *)
+Example ex_container_hyps :
+  pv_accepts (KTuple, 3) = true /\ pv_accepts (KArr, 1) = true /\ pv_accepts (KIter, 2) = false /\
+  canonical (map snd [ (mkVar "a"%string None false (Shared (Raw 0) (Raw 1)), (KList, 3)) ]) = true.
 Proof. vm_compute. repeat split; reflexivity. Qed.
